@@ -256,6 +256,16 @@ func diff(src, dst *rib.RIB, explicitReplace map[spb.AFTType]bool, id *atomic.Ui
 		return nil, fmt.Errorf("cannot copy destination RIB contents, err: %v", err)
 	}
 
+	// A network instance that only dst has is compared with an empty src, so that
+	// all of its entries are deleted.
+	for dstNI := range dstContents {
+		if _, ok := srcContents[dstNI]; !ok {
+			empty := &aft.RIB{}
+			empty.GetOrCreateAfts()
+			srcContents[dstNI] = empty
+		}
+	}
+
 	ops := NewReconcileOps()
 
 	for srcNI, srcNIEntries := range srcContents {
